@@ -82,6 +82,17 @@ MUTANTS = [
     ('m54', 'C15', 'break', 'skoolkit/sna2img.py', "                    udg.attr &= 127", "                    udg.attr &= 63", None),
     ('m55', 'C06', 'break', 'skoolkit/simulator.py', "                    if registers[25] < next_int + int_active:\n                        if registers[26]:\n                            self.accept_interrupt(registers, memory, pc)\n                    else:",
      "                    if registers[26] and registers[25] < next_int + int_active:\n                        self.accept_interrupt(registers, memory, pc)\n                    else:", 'opcodes:00'),
+    ('m56', 'C07', 'break', 'skoolkit/simulator.py', "            opcodes[memory[(registers[24] + 1) % 65536]]()", "            opcodes[memory[(registers[24] + 1) % 65535]]()", 'opcodes:CB,opcodes:00'),
+    ('m57', 'C01', 'break', 'skoolkit/disassembler.py',
+     "                instruction = self.imaker(address, operation, self.snapshot[address:address + length])\n            elif self.wrap:\n                instruction = self.imaker(address, operation, self.snapshot[address:65536] + self.snapshot[:(address + length) & 65535])\n            else:\n                instruction = self._defb_line(address, self.snapshot[address:65536])\n            instruction.variant = flags & VARIANT\n",
+     "                instruction = self.imaker(address, operation, self.snapshot[address:address + length])\n                instruction.variant = flags & VARIANT\n            elif self.wrap:\n                instruction = self.imaker(address, operation, self.snapshot[address:65536] + self.snapshot[:(address + length) & 65535])\n            else:\n                instruction = self._defb_line(address, self.snapshot[address:65536])\n", None),
+    ('m58', 'C12', 'break', 'skoolkit/bin2tap.py', "set(parse_int(b) for b in namespace.banks.split(','))", "set(filter(None, map(parse_int, namespace.banks.split(','))))", 'opcodes:00'),
+    ('m59', 'C13', 'break', 'skoolkit/pagingtracer.py', "            if isinstance(memory, Memory):\n                memory.out7ffd(value)\n                self.out7ffd = value\n        if port & 0xC002 == 0xC000:\n            self.outfffd = value\n        elif port & 0xC002 == 0x8000 and self.outfffd < 16:\n            self.ay[self.outfffd] = value\n\n    def write_port_with_border_list",
+     "            if isinstance(memory, Memory):\n                memory.out7ffd(value)\n            self.out7ffd = value\n        if port & 0xC002 == 0xC000:\n            self.outfffd = value\n        elif port & 0xC002 == 0x8000 and self.outfffd < 16:\n            self.ay[self.outfffd] = value\n\n    def write_port_with_border_list", 'opcodes:00'),
+    ('m60', 'C14', 'break', 'skoolkit/snactl.py', "                ctls[address] = ctl or next_ctl", "                ctls[address] = ctl or 'U'", None),
+    ('m61', 'C08', 'break', 'skoolkit/skoolutils.py', "            bank = banks[next(i for i, b in enumerate(self.banks) if b is self.memory[3])]", "            bank = banks[self.banks.index(self.memory[3])]", 'opcodes:00'),
+    ('m62', 'C15', 'break', 'skoolkit/skoolmacro.py', "            end += len(frame_id)\n            x = y = 0\n", "            end += len(frame_id)\n", None),
+    ('m63', 'C15', 'break', 'skoolkit/skoolmacro.py', "        udg_array[-1].extend(FILL_UDG.copy() for n in range(width - len(udg_array[-1])))", "        udg_array[-1].extend((FILL_UDG,) * (width - len(udg_array[-1])))", None),
     # harmless edits: must not raise an alarm
     ('h01', 'C05', 'harmless', 'skoolkit/simulator.py',
      "            pcn = registers[24] + 1\n            registers[:2] = af[registers[0]][memory[pcn % 65536]]\n            registers[15] = R1[registers[15]] # R\n            registers[25] += 7 # T-states\n            registers[24] = (pcn + 1) % 65536 # PC",
